@@ -122,11 +122,92 @@ pub fn c18_case(fam: &str, idx: usize, seed: u64) -> Option<Case> {
             }
             sc.paced = rng.chance(3, 4);
             sc.latency_ms = *rng.pick(&[0, 1, 5, 40]);
-            let desc = format!("{} size={} content={} faults=[{}] paced={} lat={}ms", k.describe(), size, content_name(class), rules_desc(&sc.rules), sc.paced, sc.latency_ms);
+            // a destination that cannot be opened (its directory does not exist): the delivery fails at the very
+            // end, and that, too, is an outcome the receiver has to report
+            if rng.chance(1, 8) {
+                sc.transfers[0].dst_name = "nodir/dst0.bin".into();
+            }
+            let desc = format!("{} size={} content={} dst={} faults=[{}] paced={} lat={}ms", k.describe(), size, content_name(class), sc.transfers[0].dst_name, rules_desc(&sc.rules), sc.paced, sc.latency_ms);
+            Some(Case::from(sc, &k, desc, false))
+        }
+        "cancel" => {
+            // closure requested and a user cancel at either entity in the middle of the exchange; for a
+            // receiver-side cancel the sender's EOF is still in flight and arrives afterwards. The closure
+            // procedure still applies: the sender waits for the Finished PDU and reports what it says; a
+            // cancelled receiver is not revived by the late EOF.
+            let mut rng = Rng::derive(seed, 1803, idx as u64);
+            let mut k = Knobs::base();
+            k.mode = unack();
+            k.closure = true;
+            k.seg = 32;
+            let size = 32 * (3 + rng.usize(10)) - rng.usize(5);
+            let class = *rng.pick(&[0u64, 1, 2, 3]);
+            let c = content(&mut rng, size, class, 32, 0xC18);
+            let mut sc = two_party(&case, rng.next_u64(), &k, c);
+            let n0 = first_pass_len(size, 32);
+            let who = rng.usize(2);
+            let at = 1 + rng.usize(n0 - 2);
+            let trig = if who == 0 { Trigger::AfterEmit(0, at) } else { Trigger::AfterArrive(1, (n0 - 2).min(at + n0 / 2)) };
+            sc.scripts.push(Script { trig, delay_ms: rng.below(2), act: Act::Prim(who, PrimKind::Cancel, 0) });
+            if who == 1 {
+                sc.rules.push(Rule { from: 0, to: 1, m: Matcher::KindAll(Kind::Eof), a: Action::Delay(100 + rng.below(1500)) });
+            } else if rng.chance(1, 3) {
+                sc.rules.push(Rule { from: 0, to: 1, m: Matcher::Nth(rng.usize(at)), a: Action::Drop });
+            }
+            sc.paced = true;
+            let desc = format!("{} size={} cancel at e{} {:?} faults=[{}]", k.describe(), size, who, sc.scripts[0].trig, rules_desc(&sc.rules));
             Some(Case::from(sc, &k, desc, false))
         }
         _ => None,
     }
+}
+
+/// C18 with a user cancel (closure requested): direction rule, the sender still waits for the Finished PDU and
+/// reports its outcome, and a cancelled receiver that is still open is not revived by the late EOF.
+pub fn judge_c18_cancel(info: &Info, log: &RunLog, rep: &mut Report) {
+    judge_c18_kinds(info, log, rep);
+    let d = Dig::new(log);
+    count_observed(rep, log);
+    let t = &info.transfers[0];
+    let id = match d.id(0) {
+        Some(i) => i,
+        None => return,
+    };
+    let w = |head: &str| witness(log, info, head);
+    let who = if d.prims(t.src, 0).iter().any(|p| p.2 == PrimKind::Cancel && p.3) { "sender" } else { "receiver" };
+    rep.count(&format!("c18_cancel_runs:{}", who));
+    // the sender waits for Finished and reports it
+    if let Some(fa) = d.arrivals(t.src, id).into_iter().find(|a| a.2 == Kind::Finished) {
+        let alive = d.spans(id, TaskKind::Send).iter().any(|s| s.start_us <= fa.1 && s.end_us.map(|e| e >= fa.1).unwrap_or(true));
+        let limit_hit = d.faults(t.src, id).iter().any(|f| f.1 <= fa.1) || d.abandons(t.src, id).iter().any(|f| f.1 <= fa.1);
+        if !alive && !limit_hit {
+            rep.violate("closure-sender-did-not-wait", format!("closure=true cancel-at={}", who), &info.case, w("closure requested, but the sender had ended (without any limit fault) before the receiver's Finished arrived"));
+        } else if alive {
+            if let PDUPayload::Directive(Operations::Finished(fp)) = &fa.3.payload {
+                let got = d.finished(t.src, id).iter().any(|x| x.0 > fa.0 && x.2.delivery_code == fp.delivery_code);
+                if got {
+                    rep.count("c18_checked:cancelled-sender-reports-finished");
+                } else {
+                    rep.violate("closure-sender-report", format!("closure=true cancel-at={} pdu={:?}/{:?}", who, fp.condition, fp.delivery_code), &info.case, w("the sender received Finished but gave its user no Finished indication"));
+                }
+            }
+        }
+    }
+    // a receiver that reported the cancel and is still open is not revived by the EOF that was in flight
+    if let Some((ci, ct)) = d.finished(t.dst, id).into_iter().find(|x| x.2.report.condition == Condition::CancelReceived).map(|x| (x.0, x.1)) {
+        let respawned = d.spans(id, TaskKind::Recv).iter().any(|sp| sp.start_us > ct);
+        if !respawned {
+            rep.count("c18_checked:cancelled-receiver-stays-cancelled");
+            if let Some(s) = d.finished(t.dst, id).into_iter().find(|x| x.0 > ci && x.2.delivery_code == DeliveryCode::Complete) {
+                rep.violate("cancelled-receiver-revived", format!("closure=true cond={:?}", s.2.report.condition), &info.case, w("the receiver reported the transaction cancelled and later, still the same transaction, a complete delivery"));
+            }
+            let after: Vec<_> = d.dests(0).into_iter().filter(|x| x.1 > ct).collect();
+            if after.iter().any(|x| x.2.is_some()) {
+                rep.violate("cancelled-receiver-revived", "closure=true file-appears".to_string(), &info.case, w("a file appeared under the destination name after the receiver had reported the transaction cancelled"));
+            }
+        }
+    }
+    rep.nontrivial(case_sig(info, log));
 }
 
 pub fn judge_c18(info: &Info, log: &RunLog, rep: &mut Report) {
@@ -229,6 +310,14 @@ pub fn judge_c18(info: &Info, log: &RunLog, rep: &mut Report) {
             }
         }
     }
+    // whatever the outcome, a receiver that was given the metadata and the EOF tells its user how it ended
+    if eof_arr.is_some() && got_md {
+        if d.finished(t.dst, id).is_empty() {
+            rep.violate("receiver-outcome-not-reported", format!("{} unwritable-destination={}", cfgkey, t.dst_name.contains('/')), &info.case, w("metadata and EOF were delivered, but the receiving user never got a Finished indication"));
+        } else {
+            rep.count("c18_checked:receiver-reports-an-outcome");
+        }
+    }
     let snd_end = d.ended(id, TaskKind::Send);
     let eof_emit = em.iter().find(|e| e.3 == Kind::Eof);
     if !k.closure {
@@ -252,6 +341,15 @@ pub fn judge_c18(info: &Info, log: &RunLog, rep: &mut Report) {
         if eof_arr.is_some() && got_md {
             if fin_pdus.is_empty() {
                 rep.violate("closure-no-finished", cfgkey.clone(), &info.case, w("closure requested, EOF and metadata delivered, but the receiver never sent Finished"));
+            } else if complete && t.dst_name.contains('/') {
+                // the destination cannot be opened: the outcome is a filestore rejection, never a success
+                if let PDUPayload::Directive(Operations::Finished(f)) = &fin_pdus[0].4.payload {
+                    if f.condition == Condition::NoError && f.file_status == FileStatusCode::Retained {
+                        rep.violate("closure-wrong-outcome", format!("{} unwritable destination reported as {:?}/{:?}/{:?}", cfgkey, f.condition, f.delivery_code, f.file_status), &info.case, w("the destination could not be opened, yet the Finished PDU reports a retained file without error"));
+                    } else {
+                        rep.count("c18_checked:finished-true-outcome(unwritable destination)");
+                    }
+                }
             } else if complete {
                 if let PDUPayload::Directive(Operations::Finished(f)) = &fin_pdus[0].4.payload {
                     let want_status = if t.src_name.is_empty() { FileStatusCode::Unreported } else { FileStatusCode::Retained };
@@ -323,13 +421,16 @@ pub fn run_c18(tier: &str, seed: u64, replay: Option<&str>) -> (Meta, Report) {
         rule: "unacknowledged mode. sys = closure on/off x sizes {0,1,seg,seg+1,3seg,3seg+4} x {random, zero-runs, checksum-neutral} content x {no loss, duplicated EOF, every single loss and every double loss over the sender's PDUs, (closure) every loss of the 1st/2nd/3rd Finished alone and combined with every single forward loss, loss of the first two and of all Finished} (complete); rand = random knobs/sizes with up to 3 faults incl. dup/delay/corruption. distinct_nontrivial = distinct (config, size, event-order) signatures among runs where a fault fired.".into(),
         exhaustive: true,
         assumptions: vec!["'true outcome' = Complete iff metadata and every byte were delivered before the EOF; which error condition accompanies an incomplete delivery is not judged".into()],
-        require: vec![("c18_checked:sender-direction".into(), 500), ("c18_eof_delivered:incomplete".into(), 100), ("c18_checked:finished-true-outcome".into(), 50), ("c18_checked:sender-reports-outcome".into(), 50)],
+        require: vec![("c18_checked:sender-direction".into(), 500), ("c18_eof_delivered:incomplete".into(), 100), ("c18_checked:finished-true-outcome".into(), 50), ("c18_checked:sender-reports-outcome".into(), 50), ("c18_checked:cancelled-sender-reports-finished".into(), 200), ("c18_checked:cancelled-receiver-stays-cancelled".into(), 200), ("c18_checked:finished-true-outcome(unwritable destination)".into(), 20)],
         extra: vec![],
     };
     if let Some(r) = replay {
         let (p, fam, idx, sd) = parse_case(r);
         if p != "C18" {
             return (meta, run_single(crate::p_xfer::any_case(r).expect("case"), judge_c18_kinds));
+        }
+        if fam == "cancel" {
+            return (meta, run_single(c18_case(&fam, idx, sd).expect("case"), judge_c18_cancel));
         }
         return (meta, run_single(c18_case(&fam, idx, sd).expect("case"), judge_c18));
     }
@@ -339,6 +440,9 @@ pub fn run_c18(tier: &str, seed: u64, replay: Option<&str>) -> (Meta, Report) {
     let nr = if thorough { 800_000 } else { 3_000 };
     rep.merge(run_cases(nr, "c18-rand", move |i| c18_case("rand", i, seed), judge_c18));
     rep.add("cases:rand", nr as u64);
+    let nc = if thorough { 200_000 } else { 1_500 };
+    rep.merge(run_cases(nc, "c18-cancel", move |i| c18_case("cancel", i, seed), judge_c18_cancel));
+    rep.add("cases:cancel", nc as u64);
     // the direction rule alone (an unacknowledged-mode receiver emits nothing but Finished, and that only with
     // closure) over other properties' workloads: primitives, prompts, late copies, cancels
     let nx = if thorough { 150_000 } else { 1_500 };
@@ -470,8 +574,16 @@ pub fn c19_case(fam: &str, idx: usize, seed: u64) -> Option<Case> {
             if rng.chance(1, 3) {
                 sc.rules.push(Rule { from: 1, to: 0, m: Matcher::Nth(rng.usize(4)), a: Action::Drop });
             }
+            // the sending user prompts while one of the two is suspended: a prompt is no licence to transmit
+            let mut prompted = String::new();
+            if len > 1 && rng.chance(1, 3) {
+                let what = if rng.bool() { PrimKind::PromptNak } else { PrimKind::PromptKeepAlive };
+                let dly = rng.below(len.min(5000));
+                sc.scripts.push(Script { trig: Trigger::AfterInd(who, IndKind::Suspended, 0), delay_ms: dly, act: Act::Prim(0, what, 0) });
+                prompted = format!(" {:?} {} ms into the suspension", what, dly);
+            }
             sc.observe_ms = 3 * bound_ms(&kp.config(), 2000) + len;
-            let desc = format!("{} size={} suspend e{} {:?} for {} ms faults=[{}]", k.describe(), size, who, sc.scripts[0].trig, len, rules_desc(&sc.rules));
+            let desc = format!("{} size={} suspend e{} {:?} for {} ms{} faults=[{}]", k.describe(), size, who, sc.scripts[0].trig, len, prompted, rules_desc(&sc.rules));
             let mut cs = Case::from(sc, &k, desc, true);
             cs.info.knobs[1 - who] = kp;
             Some(cs)
@@ -584,7 +696,7 @@ pub fn run_c19(tier: &str, seed: u64, replay: Option<&str>) -> (Meta, Report) {
     let meta = Meta {
         property: "C19",
         level: "exploration",
-        rule: "sys = Suspend at the sender or the receiver after EVERY emission index of the sender and EVERY arrival index at the receiver (5-segment file) x suspension lengths {0, 1.5 s, 40 s (> L*T of every timer of the suspended entity)} x {no loss, one lost data segment, lost EOF} x {ack with 4 NAK procedures, unack+closure}; Resume is issued that long after the Suspended indication (complete); rand = random knobs/sizes/trigger points/lengths/losses. The peer of the suspended entity has the same timeouts but limit 40, so that only the suspended entity's limits are under test. distinct_nontrivial = distinct (config, size, event-order) signatures among runs with a suspended window.".into(),
+        rule: "sys = Suspend at the sender or the receiver after EVERY emission index of the sender and EVERY arrival index at the receiver (5-segment file) x suspension lengths {0, 1.5 s, 40 s (> L*T of every timer of the suspended entity)} x {no loss, one lost data segment, lost EOF} x {ack with 4 NAK procedures, unack+closure}; Resume is issued that long after the Suspended indication (complete); rand = random knobs/sizes/trigger points/lengths/losses, in a third of the runs with a Prompt(NAK / keep-alive) of the sending user during the suspension. The peer of the suspended entity has the same timeouts but limit 40, so that only the suspended entity's limits are under test. distinct_nontrivial = distinct (config, size, event-order) signatures among runs with a suspended window.".into(),
         exhaustive: true,
         assumptions: vec!["window = [Suspended indication observed by the user, Resume request issued]; in-flight slack 2 PDUs at the instant of suspension (10 ms)".into(), "completion after resume is demanded in acknowledged mode with at most one loss (C02 hypothesis)".into()],
         require: vec![("c19_windows:sender".into(), 300), ("c19_windows:receiver".into(), 300), ("c19_checked:completed-after-resume".into(), 300), ("c19_window_length:long".into(), 100)],
